@@ -30,9 +30,9 @@ HAZARDS = {
     'dt_whole_passed_on': 'derived-type dummy used by component and passed on whole to a callee that never touches its components',
     'dt_alloc_lbound': 'allocatable member allocated with lower bound 0 and indexed from 0 in the kernel',
     'dt_allocated_inq': 'kernel asks ALLOCATED(member)',
-    'dt_kw_call': 'derived-type actual passed by keyword',
+    'dt_func_kw': 'function kernel referenced with a keyword derived-type actual',
     # tb
-    'tb_nested_function': 'type-bound function called on a nested member, a%b%fun()',
+    'tb_nested_function': 'type-bound function reference (always forced on a nested member a%b%fun(), also direct d%fun())',
     'tb_generic': 'call through a generic type-bound binding',
     # seq
     'seq_span': 'sequence association spanning more than the first dimension',
@@ -47,6 +47,7 @@ HAZARDS = {
     'shape_member_dim': 'caller array dimensioned by a derived-type member',
     # dup
     'dup_spec_use': 'removed duplicate dummy is used in the callee specification part (array extent)',
+    'dup_two_callers': 'routine with duplicated actuals called from two routines (same duplicate pattern)',
     'dup_kw': 'duplicated actuals passed by keyword (not adjacent in the keyword list)',
     'dup_diff_bounds': 'the two dummies that receive the same actual are declared with different lower bounds',
 }
@@ -300,13 +301,22 @@ class SigGen:
 
         ndt = {'dt': rng.choice([1, 2, 2, 3]), 'tb': rng.choice([1, 2]), 'seq': rng.choice([0, 1]),
                'shape': rng.choice([0, 1]), 'dup': rng.choice([0, 1, 2])}[mode]
+        if level >= 3:
+            # the deepest routines are easy to serve
+            ndt = min(ndt, 1)
         for _ in range(ndt):
             add_dt()
+        if getattr(self, 'caller_levels', None) and level in self.caller_levels:
+            # routines that have callees get one writable top_t (objects of all component types are reachable from it)
+            if not any(a.cat == 'dt' and a.ty is self.types['top'] and a.intent != 'in' for a in args):
+                add_dt('top', 'inout')
         if f['plain_args'] and rng.random() < 0.4:
             add_dt('plain', rng.choice(['in', 'inout']))
             self.features.add('plain_type_arg')
         narr = {'dt': rng.choice([0, 1, 2]), 'tb': rng.choice([0, 1]), 'seq': rng.choice([2, 3]),
                 'shape': rng.choice([2, 3]), 'dup': rng.choice([2, 3])}[mode]
+        if level >= 3:
+            narr = min(narr, 2)
         for _ in range(narr):
             add_arr1()
         if rng.random() < (0.6 if mode in ('seq', 'shape') else 0.3):
@@ -604,7 +614,13 @@ class SigGen:
     def gen_call(self, r, objs, child, in_kloop=False):
         rng, f = self.rng, self.f
         seq_ok = f['seq_actuals']
-        for _ in range(6):
+        if f['dups'] and any(a.dupof for a in child.args) and getattr(child, 'caller', r.name) != r.name:
+            # RemoveDuplicateArgs re-analyses the calls of a second calling routine against the already reduced
+            # callee: hazard dup_two_callers
+            if self.hz != 'dup_two_callers':
+                return None
+            self.hz_done = True
+        for _ in range(40):
             chosen = {}
             acts = []
             fail = False
@@ -638,8 +654,12 @@ class SigGen:
             if not ok:
                 continue
             argtxt = []
-            kw = f['kw_calls'] and rng.random() < 0.3
+            # keyword actuals in a *function* reference are the hazard dt_func_kw
+            kw = f['kw_calls'] and rng.random() < 0.3 and not child.is_function
             kwstart = rng.randint(2, len(child.args)) if kw else 10 ** 6
+            if child.is_function and self.hz == 'dt_func_kw' and any(a.cat == 'dt' for a in child.args):
+                kw, kwstart = True, 2
+                self.hz_done = True
             pos = 0
             for a in child.args:
                 if a.cat == 'len':
@@ -656,6 +676,8 @@ class SigGen:
                 pos += 1
             if any(a.dupof for a in child.args):
                 self.features.add('duplicated_actuals')
+                if not hasattr(child, 'caller'):
+                    child.caller = r.name
             cname = child.name
             if child.is_function:
                 w0 = [o for o in objs if o.kind == 'real' and o.rank == 0 and o.writable
@@ -706,7 +728,7 @@ class SigGen:
                 self.hz_done = True
         if '%tot()' in L[0]:
             self.features.add('tb_function_call')
-            if nested and self.hz == 'tb_nested_function':
+            if self.hz == 'tb_nested_function':
                 self.hz_done = True
         self.features.add('tb_call')
         return L
@@ -786,8 +808,8 @@ class SigGen:
         # every (expandable) derived-type dummy is referenced by component at least once: a dummy that is only passed
         # on as a whole next to callers that use its components is the hazard dt_whole_passed_on
         for a in r.args:
-            if a.cat == 'dt' and a.ty.name != 'plain_t' and not any(f'{a.name}%' in ln for ln in body):
-                mem = {'leaf_t': 'c', 'mid_t': 'g', 'top_t': 'a(1)'}[a.ty.name]
+            if a.cat == 'dt' and not any(f'{a.name}%' in ln for ln in body):
+                mem = {'leaf_t': 'c', 'mid_t': 'g', 'top_t': 'a(1)', 'plain_t': 's'}[a.ty.name]
                 body.append(f'ls1 = ls1 + 0.125_rk*{a.name}%{mem}')
         r.lines = body
         return objs
@@ -952,7 +974,7 @@ class SigGen:
         the construct is isolated from the random part of the program.  Sets self.hz_done.
         """
         hz = self.hz
-        if not hz or self.hz_done or hz.startswith('tb_') or hz in ('dt_kw_call', 'dup_kw'):
+        if not hz or self.hz_done or hz.startswith('tb_') or hz in ('dt_func_kw', 'dup_kw', 'dup_two_callers'):
             return
         inner = 'md' if 'mid' in self.types else 'lf'
         innerty = 'mid_t' if 'mid' in self.types else 'leaf_t'
@@ -1057,9 +1079,12 @@ class SigGen:
         nk = f['n_kernels']
         # levels: kernel idx may call kernels with larger idx (depth <= 3)
         kernels = []
+        levels = []
         for idx in range(1, nk + 1):
-            level = 1 if idx == 1 else rng.choice([1, 2, 3]) if idx > 2 else 2
-            level = min(level, idx)
+            level = 1 if idx == 1 else rng.choice([1, 2, 3, 3]) if idx > 2 else 2
+            levels.append(min(level, idx))
+        self.caller_levels = {l for l in levels if any(l2 > l for l2 in levels)}
+        for idx, level in zip(range(1, nk + 1), levels):
             kernels.append(self.make_signature(idx, level))
         # function kernel
         if f['func_kernel']:
@@ -1221,6 +1246,10 @@ class SigGen:
                     body += self.gen_stmt(drv, objs, 0)
         if f['typebound']:
             body += self.gen_tb_call(drv, objs)
+            # top_fold (and through it mid_acc) call other bound procedures: they must be part of the call tree,
+            # otherwise they would be left untransformed next to transformed callees (inconsistent input project)
+            body += ['call t2%fold(ls2)']
+            self.features.add('tb_call')
         body += ['res(1) = ls1', 'res(2) = ls2', 'res(3) = l1(1) + l1(n)', 'res(4) = l2(1, 1) + l2(n, m)']
         if any(l[0] == 'l0' for l in drv.locals_):
             body += ['res(5) = l0(0) + l0(n-1)']
